@@ -1204,6 +1204,9 @@ class Engine:
         if isinstance(a, Ptr) or isinstance(b, Ptr):
             return s.ptr_arith(st, op, a, b, bits)
         if isinstance(a, Bundle) or isinstance(b, Bundle):
+            if isinstance(a, Bundle) and op == 'lshr' and isinstance(b, int) and b % 8 == 0:
+                sh = b // 8
+                return Bundle([(ro - sh, sz, x) for ro, sz, x in a.parts if ro >= sh], a.size)
             raise Inconclusive('INT mode: arithmetic on a bundled wide load')
         return A.binop(st, op, a, b, bits)
 
@@ -1268,6 +1271,10 @@ class Engine:
         if nb == 1:
             return A.i2b(st, v, fb)
         if isinstance(v, Bundle):
+            if op == 'trunc':
+                for ro, sz, x in v.parts:
+                    if ro == 0 and sz * 8 == nb:
+                        return x
             raise Inconclusive('INT mode: cast of a bundled wide load')
         return getattr(A, op)(st, v, fb, nb)
 
@@ -1293,6 +1300,10 @@ class Engine:
             raise Inconclusive('INT mode: bundle does not match the vector it is cast to')
         if isinstance(v, Bundle):
             return v
+        if ft.k == 'int' and tt.k in ('float', 'double') and (isinstance(v, Fraction) or (z3.is_expr(v) and v.sort().kind() == z3.Z3_REAL_SORT)):
+            return v      # a float that travelled through an integer register (piece of a bundle)
+        if ft.k in ('float', 'double') and tt.k == 'int':
+            return v      # stays a real; only storing/bundling is possible with it
         if ft.k in ('float', 'double') or tt.k in ('float', 'double'):
             raise Inconclusive('REAL mode: bitcast between integer and floating point')
         if ft.k == 'vector' and tt.k == 'vector' and s.L.res(ft.elem) == s.L.res(tt.elem):
